@@ -543,7 +543,7 @@ class Interp(object):
     def exec_For(self, node, frame):
         ordinal = self._loop_ordinal(node, frame)
         spec = self.loop_specs.get((frame.qualname, ordinal))
-        it = self.eval(node.iter, frame)
+        it = self.norm_iterable(self.eval(node.iter, frame))
         if self._accelerate_dict_fill(node, it, frame):
             return
         if spec is not None and self.loop_spec_active(spec) and not self._concrete_iterable(it):
@@ -634,8 +634,19 @@ class Interp(object):
         from .loops import run_loop_with_spec
         return run_loop_with_spec(self, node, frame, spec, kind, iterable)
 
+    def norm_iterable(self, v):
+        """an HList is iterated as a concrete list (no segments) or as its single segment"""
+        if isinstance(v, HList):
+            if not v.segments():
+                return ListVal(v.parts)
+            if len(v.parts) == 1:
+                return v.parts[0].seq
+            raise Unsupported('iteration over a list mixing known elements and symbolic segments')
+        return v
+
     def iterate(self, it, body, frame=None, where=None):
         """Internal iteration: call body(x) for each element; BreakSignal propagates."""
+        it = self.norm_iterable(it)
         if isinstance(it, (tuple, list)):
             for x in list(it):
                 body(x)
@@ -769,6 +780,9 @@ class Interp(object):
             f = None
         if frame.yield_handler is None:
             raise Unsupported('yield outside a consumed generator in %s' % frame.qualname)
+        # ghost trace of every yield, by generator (specifications of pipelines of generators refer
+        # to what an inner generator handed to the one consuming it)
+        self.p.trace.append(('gen-yield', frame.qualname, value))
         return frame.yield_handler(value)
 
     # ------------------------------------------------------------------ expressions
@@ -977,7 +991,7 @@ class Interp(object):
 
     def eval_ListComp(self, node, frame):
         sub = self.comp_frame(frame)
-        first = self.eval(node.generators[0].iter, frame)
+        first = self.norm_iterable(self.eval(node.generators[0].iter, frame))
         if isinstance(first, SeqVal) and self.seq_len_unknown(first):
             return self.map_over_seq(node, first, sub)
         out = []
@@ -1005,7 +1019,7 @@ class Interp(object):
 
     def eval_GeneratorExp(self, node, frame):
         sub = self.comp_frame(frame)
-        first = self.eval(node.generators[0].iter, frame)
+        first = self.norm_iterable(self.eval(node.generators[0].iter, frame))
         if isinstance(first, SeqVal) and self.seq_len_unknown(first):
             return IterSource('seqmap', (node, first, sub))
         g = node.generators[0]
@@ -1076,6 +1090,10 @@ class Interp(object):
             return len(v.items) > 0
         if isinstance(v, SeqVal):
             return self.p.branch(z3.Length(v.term) > 0)
+        if isinstance(v, HList):
+            if any(not isinstance(x, Segment) for x in v.parts):
+                return True
+            return self.truthy(self.call(self.builtins['len'], [v], {}))
         if isinstance(v, NamedTupleVal):
             return len(v.values) > 0
         if isinstance(v, Obj):
